@@ -631,7 +631,21 @@ class SmartGen:
         rf = [p for p in self.files(m.R)]
         lf = [p for p in self.files(m.L)]
         remote_only = [p for p in rf if p not in m.L]
-        if r < 0.16:                                                    # remote create
+        if r < 0.05 and not self.drained:                               # a file below folders that are not mirrored yet, requested
+            d = rng.choice(self.dirs(m.R))                              # once the engine knows its path (parents first)
+            if d.count("/") < 2:
+                top = d + "/" + self.fresh("D")
+                self.user(1, "mkdir", top)
+                if rng.random() < 0.6:
+                    top = top + "/" + self.fresh("D")
+                    self.user(1, "mkdir", top)
+                f = top + "/" + self.fresh("F")
+                self.user(1, "create", f, self.content())
+                self.sched += [["intake", 1], ["sync"]] + ([["sync"]] if rng.random() < 0.3 else [])
+                if rng.random() < 0.85:
+                    self.sched.append(["hook", "request", rng.choice(["path_l", "path_r", "oid"]), f])
+                    m.step(("request", f))
+        elif r < 0.16:                                                  # remote create
             d = rng.choice(self.dirs(m.R))
             self.user(1, "create", d + "/" + self.fresh("F"), self.content())
         elif r < 0.22:                                                  # remote mkdir
@@ -710,7 +724,7 @@ def smart_interleaved(rng):
 
 
 # ------------------------------------------------------------------ Stream B: deterministic (independent of VERIF_SEED)
-WILD_VERSION = "c20-wild-1"
+WILD_VERSION = "c20-wild-2"
 
 
 def smart_wild(i):
